@@ -96,8 +96,13 @@ def spec_strategy(draw, backend, idx):
         e1, e2, t = expr(), expr(), term()
         ctype = {"double": "double", "float": "float", "int": "double"}[ret]
         sub = lambda x: x.replace("__OBJPT__", (mobj or "") + arrow + "pt()")
-        form = draw(st.sampled_from(["if-next-line", "if-next-line", "if-comment", "if-same-line", "if-else-braces"]))
-        if form == "if-else-braces":
+        form = draw(st.sampled_from(["if-next-line", "if-next-line", "if-comment", "if-same-line", "if-else-braces", "brace-statement"]))
+        if form == "brace-statement":
+            # complete statements that END in a brace (a lambda, a braced initialiser) and lack their ';': they are statements, not block ends
+            code.append("auto vf_twice = [](double q) { return 2 * q; }")
+            code.append(f"double vf_pair[2] = {{{sub(e1)}, {sub(e2)}}}")
+            code.append(f"{ctype} {res} = (({sub(t)}) > 1.5) ? vf_pair[1] : vf_pair[0];")
+        elif form == "if-else-braces":
             # braces and an else on lines of their own ('} else' is not a complete statement either)
             code.append(f"{ctype} {res} = 0;")
             code.append(f"if ({sub(t)} > 1.5) {{")
@@ -111,7 +116,7 @@ def spec_strategy(draw, backend, idx):
                 code.append("}")
             else:
                 code.append(f"  {res} = {sub(e1)}" + draw(st.sampled_from([";", ""])))
-        else:
+        if form not in ("if-else-braces", "brace-statement"):
             code.append(f"{ctype} {res} = {sub(e1)};")
             if form == "if-same-line":
                 # the whole conditional statement on one line, with or without its semicolon
